@@ -111,6 +111,8 @@ struct Task {
     // per-task bookkeeping for monitors
     int api_depth = 0;              // inside an XCM API call
     int api_eagains = 0;            // EAGAIN results seen by the current outermost API call
+    int api_fault_errno = 0;        // a connection-breaking errno was injected into a lower read/write of the current outermost API call
+    bool api_fault_on_write = false;
     bool api_nonblocking = false;   // ... on a socket in non-blocking mode
     const char *api_name = "";
     void *api_sock = nullptr;
